@@ -285,9 +285,12 @@ pub fn suite_hash(dir: &str, seed: u64, thorough: bool, st: &mut Stats) {
     let n = if thorough { 6000 } else { 250 };
     let table = buz_table();
     for i in 0..n {
-        let w = if i < 40 { (i % 20 + 1) as usize } else { *rng.pick(&[1usize, 2, 3, 4, 8, 16, 31, 32, 33, 64, 100, 255, 256]) };
-        let len = rng.range(0, if thorough { 3000 } else { 1200 }) as usize;
-        let (data, kind) = gen_data(&mut rng, len);
+        // windows large enough for the 32-bit sums to wrap (RollSum: s2 ~ w^2/2 * (byte + 31) passes 2^32 from w ~ 5500)
+        let wide = i >= 40 && i < 40 + if thorough { 24 } else { 5 };
+        let w = if i < 40 { (i % 20 + 1) as usize } else if wide { *rng.pick(&[4800usize, 5600, 6000, 8192, 7001]) } else { *rng.pick(&[1usize, 2, 3, 4, 8, 16, 31, 32, 33, 64, 100, 255, 256]) };
+        let len = if wide { w + rng.range(500, 3000) as usize } else { rng.range(0, if thorough { 3000 } else { 1200 }) as usize };
+        let (mut data, kind) = gen_data(&mut rng, len);
+        if wide { for b in data.iter_mut() { if rng.chance(3, 4) { *b |= 0xe0; } } }
         let algo = if rng.chance(1, 2) { 'R' } else { 'B' };
         let mut sums: Vec<u32> = vec![];
         if algo == 'R' {
@@ -298,6 +301,7 @@ pub fn suite_hash(dir: &str, seed: u64, thorough: bool, st: &mut Stats) {
             }
             // oracle: pure window hash
             for (k, s) in sums.iter().enumerate() {
+                if wide && k % 53 != 0 && k + 1 != data.len() { continue; }
                 st.oracle_checks += 1;
                 if *s != rs_pure(&window_at(&data, k + 1, w)) {
                     st.violation("C09", &format!("RollSum sum after byte {} is not the hash of the trailing window", k),
@@ -316,6 +320,7 @@ pub fn suite_hash(dir: &str, seed: u64, thorough: bool, st: &mut Stats) {
                 if RollingHash::init_done(&h) {
                     let s = RollingHash::sum(&h);
                     sums.push(s);
+                    if wide && k % 53 != 0 && k + 1 != data.len() { continue; }
                     st.oracle_checks += 1;
                     if s != buz_pure(&table, &window_at(&data, k + 1, w)) {
                         st.violation("C09", &format!("BuzHash sum after byte {} is not the hash of the trailing window", k),
@@ -328,7 +333,7 @@ pub fn suite_hash(dir: &str, seed: u64, thorough: bool, st: &mut Stats) {
         let line = format!("hash {} {} {}", algo, w, hex(&data));
         let imp = format!("OK {}", sums.iter().map(|s| s.to_string()).collect::<Vec<_>>().join(" "));
         st.evaluations += 1;
-        st.count(&format!("hash/{}/{}", algo, kind));
+        st.count(&format!("hash/{}/{}{}", algo, kind, if wide { "/wide-window" } else { "" }));
         if data.len() > w {
             st.nontrivial_key(line.as_bytes());
         }
@@ -416,17 +421,25 @@ pub fn suite_oneshot(dir: &str, seed: u64, thorough: bool, st: &mut Stats) {
     let table = buz_table();
     let n = if thorough { 1200 } else { 120 };
     let big = if thorough { 8 } else { 2 };
+    let nwide = if thorough { 12 } else { 3 };
     for i in 0..(n + big) {
         let is_big = i >= n;
-        let cfg = if is_big {
+        let is_wide = i < nwide;
+        let cfg = if is_wide {
+            // a rolling window wide enough for the 32-bit sums to wrap
+            let win = *rng.pick(&[5600usize, 6000, 8192]);
+            let min = *rng.pick(&[0usize, 100, win, win + 50]);
+            Cfg { algo: *rng.pick(&['R', 'R', 'B']), bits: rng.range(2, 12) as u32, min, max: win.max(min) + rng.range(0, 9000) as usize, win }
+        } else if is_big {
             // max above the 1 MiB refill size so that a chunk spans several refills
             let algo = *rng.pick(&['B', 'R']);
             Cfg { algo, bits: 20, min: *rng.pick(&[0usize, 16, 64, 4096]), max: (1 << 20) + rng.range(1, 5000) as usize, win: *rng.pick(&[16usize, 64]) }
         } else {
             gen_cfg(&mut rng, false)
         };
-        let len = if is_big { (1 << 20) + rng.range(1, 300_000) as usize } else { rng.range(0, if thorough { 120_000 } else { 40_000 }) as usize };
-        let (data, kind) = gen_data(&mut rng, len);
+        let len = if is_wide { rng.range(8000, 26_000) as usize } else if is_big { (1 << 20) + rng.range(1, 300_000) as usize } else { rng.range(0, if thorough { 120_000 } else { 40_000 }) as usize };
+        let (mut data, kind) = gen_data(&mut rng, len);
+        if is_wide { for b in data.iter_mut() { if rng.chance(3, 4) { *b |= 0xe0; } } }
         let sched = gen_sched(&mut rng, len);
         let res = run_chunker(&cfg, &data, sched.clone());
         let imp = match &res {
@@ -452,7 +465,7 @@ pub fn suite_oneshot(dir: &str, seed: u64, thorough: bool, st: &mut Stats) {
         };
         let line = format!("oneshot {} {}", cfg.line(), hex(&data));
         st.evaluations += 1;
-        st.count(&format!("oneshot/{}/{}{}", cfg.algo, kind, if is_big { "/big" } else { "" }));
+        st.count(&format!("oneshot/{}/{}{}", cfg.algo, kind, if is_big { "/big" } else if is_wide { "/wide-window" } else { "" }));
         if let Ok((ch, _)) = &res {
             if ch.len() >= 2 {
                 st.nontrivial_key(line.as_bytes());
@@ -550,10 +563,19 @@ pub fn suite_resync(dir: &str, seed: u64, thorough: bool, st: &mut Stats) {
     let mut rng = Rng::new(seed ^ 0x44);
     let mut out = SuiteOut::new(dir, "resync");
     let n = if thorough { 16000 } else { 500 };
-    for _ in 0..n {
-        let cfg = gen_cfg(&mut rng, true);
-        let (s, kind) = { let l = rng.range(1, 1200) as usize; gen_data(&mut rng, l) };
+    let nwide = if thorough { 40 } else { 6 };
+    for i in 0..n {
+        // a few cases with a window wide enough for the 32-bit sums to wrap: the hash must still be a function of the
+        // window alone, whatever was fed before
+        let wide = i < nwide;
+        let cfg = if wide {
+            let win = *rng.pick(&[5600usize, 6000, 8192]);
+            Cfg { algo: *rng.pick(&['R', 'R', 'B']), bits: rng.range(3, 11) as u32, min: *rng.pick(&[0usize, win / 2, win]), max: win + rng.range(0, 6000) as usize, win }
+        } else { gen_cfg(&mut rng, true) };
+        let (mut s, kind) = { let l = if wide { rng.range(15_000, 40_000) } else { rng.range(1, 1200) } as usize; gen_data(&mut rng, l) };
+        if wide { for b in s.iter_mut() { if rng.chance(3, 4) { *b |= 0xe0; } } }
         let mut mk_prefix = |rng: &mut Rng| -> Vec<u8> {
+            if wide { let l = rng.range(0, 12_000) as usize; let mut v = gen_data(rng, l).0; if rng.chance(1, 2) { for b in v.iter_mut() { *b |= 0xf0; } } return v; }
             match rng.below(6) {
                 0 => vec![],
                 1 => { let l = rng.range(1, cfg.win.max(1) as u64) as usize; gen_data(rng, l).0 }
@@ -574,7 +596,7 @@ pub fn suite_resync(dir: &str, seed: u64, thorough: bool, st: &mut Stats) {
         match c10_oracle(&cfg, &p1, &p2, &s) {
             Ok(nontrivial) => {
                 st.evaluations += 1;
-                st.count(&format!("resync/{}/{}/{}", cfg.algo, kind, if nontrivial { "common-boundary" } else { "no-common-boundary" }));
+                st.count(&format!("resync/{}/{}/{}{}", cfg.algo, kind, if nontrivial { "common-boundary" } else { "no-common-boundary" }, if wide { "/wide-window" } else { "" }));
                 if nontrivial {
                     st.nontrivial_key(format!("{}{}{}{}", cfg.line(), hex(&p1), hex(&p2), hex(&s)).as_bytes());
                 }
